@@ -94,6 +94,7 @@ def scene(name, src, dst, r0, r1=None, extra=(), **kw):
 SCENES_Q = [
     scene('across-1rect', '0,15,30,50', '70,85,30,50', '20,20,60,60'),
     scene('corner-1rect', '0,15,30,50', '30,50,65,80', '20,20,60,60'),
+    scene('two-rects-L', '6,8,0,3', '0,3,4,7', '0,0,5,3', '4,4,5,7', extra=['-DPEN=10']),
 ]
 JOBS['C03'] = {'quick': SCENES_Q, 'thorough': []}
 JOBS['C05'] = {'quick': SCENES_Q, 'thorough': []}
@@ -109,3 +110,32 @@ JOBS['C17'] = {
 }
 ASSUMPTIONS['C17'] = []
 JOBS['C05'] = {'quick': [Job('bends-admissible', 'C05_bends.cpp', [], ['libavoid'], bounds='start point in [-8,8]^2, 4 start directions, every orthogonal path with <= 4 bends (turn directions symbolic), segment lengths <= 6')] + SCENES_Q, 'thorough': []}
+
+# ----------------------------------------------------------------------------------------------- C18
+def sepj(name, part, gapmode, **kw):
+    return Job(name, 'C18_seppair.cpp', ['-DPART=%d' % part, '-DGAPMODE=%d' % gapmode], ['libvpsc', 'libavoid', 'libcola', 'libtopology', 'libdialect'], **kw)
+B_SEP = 'all 2 gap types x 8 directions x 2 relations (x 7 transforms); node centres integers in [-20,20]^2, node sizes even integers in [2,12]; '
+GM = {0: 'gap any multiple of 1/2 in (0,12.5]', 1: 'gap = +0.0', 2: 'gap = -0.0'}
+JOBS['C18'] = {'quick': [sepj('%s-gap%d' % (n, g), p, g, bounds=B_SEP + GM[g] + '; ' + d)
+                         for (p, n, d) in ((0, 'commute', 'transform/geometry equivalence'), (1, 'group', 'dihedral group laws'), (2, 'storage-vpsc', '(a,b)/(b,a) storage and generated vpsc constraints'))
+                         for g in (0, 1, 2)],
+               'thorough': []}
+ASSUMPTIONS['C18'] = ['TGLF write/read round trip is outside the claim: iostream formatting/parsing is stubbed in the executor (DESIGN.md 2.5)',
+                      'constraint semantics (sign bit of the gap selects the left node; BDRY adds the mean extent) are written in the harness from the documentation in constraints.h']
+
+# ----------------------------------------------------------------------------------------------- C19
+DIALECT_LIBS = ['libvpsc', 'libavoid', 'libcola', 'libtopology', 'libdialect']
+def dec(name, part, nn, **kw):
+    return Job(name, 'C19_decomp.cpp', ['-DPART=%d' % part, '-DNN=%d' % nn], DIALECT_LIBS, **kw)
+JOBS['C19'] = {
+    'quick': [
+        dec('peel-n4', 0, 4, bounds='dialect::peel on every connected simple graph with 4 nodes (all 64 edge subsets, disconnected ones excluded by the precondition)'),
+        dec('conncomps-n4', 1, 4, bounds='Graph::getConnComps on every simple graph with 4 nodes (64 edge subsets)'),
+    ],
+    'thorough': [
+        dec('peel-n5', 0, 5, bounds='dialect::peel on every connected simple graph with 5 nodes (1024 edge subsets)'),
+        dec('conncomps-n5', 1, 5, bounds='getConnComps on every simple graph with 5 nodes'),
+    ],
+}
+ASSUMPTIONS['C19'] = ['peel is specified for connected graphs (disconnected inputs trip its internal assertion: precondition, see DESIGN.md 7.4)',
+                      'std::unordered containers / hashing are modelled (engine/strmodels.py); results that depended on hash iteration order would show up as native/symbolic output mismatches']
